@@ -91,11 +91,15 @@ pub struct Cfg {
     /// the same kind is alive on the same thread and is consumed in lock-step
     #[serde(default)]
     pub interleave: bool,
+    /// the call runs on an EQUAL input in another representation: every buffer re-allocated with
+    /// a seeded amount of spare capacity (0 = the input as generated)
+    #[serde(default)]
+    pub respare_seed: u64,
 }
 
 impl Cfg {
     pub fn reference() -> Cfg {
-        Cfg { workers: 1, strategy: "sequential".into(), sched_seed: 0, hash_seed: 0, addr_seed: None, prefix: vec![], from_worker: false, decisions: None, repeat: false, callers: 1, callers_other: false, inplace: false, clock_seed: 0, cpus: 0, stack_seed: 0, env_seed: 0, atomic_rate: 0, interleave: false }
+        Cfg { workers: 1, strategy: "sequential".into(), sched_seed: 0, hash_seed: 0, addr_seed: None, prefix: vec![], from_worker: false, decisions: None, repeat: false, callers: 1, callers_other: false, inplace: false, clock_seed: 0, cpus: 0, stack_seed: 0, env_seed: 0, atomic_rate: 0, interleave: false, respare_seed: 0 }
     }
 }
 
@@ -243,6 +247,7 @@ pub fn run_one(sc: &Scenario, op: &'static OpDef, input: &Input, prefix_inputs: 
     };
     let from_worker = cfg.from_worker;
     let repeat = cfg.repeat;
+    let respare_seed = cfg.respare_seed;
     // (the reversed copy is an unscreened input: not for the operations that can run away, nor under a forced Frag)
     let inplace = cfg.inplace && sc.knobs.strategy != 4 && sc.input.size <= 10_000 && !matches!(sc.op.as_str(), "sweep_intersections" | "sweep_intersections_refs" | "interior_point" | "monotone_subdivision" | "misc_per_type" | "collection_ops");
     let callers = cfg.callers.max(1);
@@ -275,6 +280,10 @@ pub fn run_one(sc: &Scenario, op: &'static OpDef, input: &Input, prefix_inputs: 
                 if repeat {
                     let _ = std::panic::catch_unwind(std::panic::AssertUnwindSafe(|| exec(op, input)));
                     *PANIC_AT.lock().unwrap_or_else(|p| p.into_inner()) = None;
+                }
+                if respare_seed != 0 && !inplace {
+                    let other_repr = inputs::respared(input, respare_seed);
+                    return exec(op, &other_repr);
                 }
                 if inplace {
                     let mut scratch = inputs::reversed(input);
@@ -534,6 +543,7 @@ pub fn gen_cfg(seed: u64, v: u64) -> Cfg {
         stack_seed: if rng.chance(2, 3) { rng.next_u64() | 1 } else { 0 },
         env_seed: if rng.chance(1, 2) { rng.next_u64() | 1 } else { 0 },
         interleave: rng.chance(1, 4),
+        respare_seed: if rng.chance(1, 4) { rng.next_u64() | 1 } else { 0 },
         atomic_rate: if cfg!(feature = "atomic-points") { *rng.pick(&[4u16, 16, 64, 128, 256, 256]) } else { 0 },
     }
 }
@@ -644,6 +654,9 @@ fn dims_of(cfg: &Cfg, sc: &Scenario) -> Vec<&'static str> {
     if cfg.interleave {
         needed.push("interleaved-lazy-consumption");
     }
+    if cfg.respare_seed != 0 {
+        needed.push("input-capacity");
+    }
     if cfg.addr_seed.is_some() {
         needed.push("addr");
     }
@@ -737,6 +750,7 @@ fn minimise(sc: &Scenario, cfg: &Cfg) -> Option<Minimised> {
     try_reset("env", &|c| c.env_seed = 0, &mut cfg);
     try_reset("atomic", &|c| c.atomic_rate = 0, &mut cfg);
     try_reset("interleave", &|c| c.interleave = false, &mut cfg);
+    try_reset("capacity", &|c| c.respare_seed = 0, &mut cfg);
     try_reset("addr", &|c| c.addr_seed = None, &mut cfg);
     try_reset("hash", &|c| c.hash_seed = 0, &mut cfg);
     try_reset(
@@ -786,6 +800,9 @@ fn minimise(sc: &Scenario, cfg: &Cfg) -> Option<Minimised> {
     }
     if cfg.interleave {
         needed.push("interleaved-lazy-consumption");
+    }
+    if cfg.respare_seed != 0 {
+        needed.push("input-capacity");
     }
     if cfg.addr_seed.is_some() {
         needed.push("addr");
@@ -943,6 +960,9 @@ fn account(t: &mut Tot, sc: &Scenario, cfg: &Cfg, info: &RunInfo) {
     }
     if cfg.env_seed != 0 {
         t.add("runs_with_env_variant", 1);
+    }
+    if cfg.respare_seed != 0 && !cfg.inplace {
+        t.add("runs_on_respared_equal_input", 1);
     }
     t.add("history_calls_that_panicked", PREFIX_PANICS.swap(0, std::sync::atomic::Ordering::SeqCst));
     t.add("atomic_ops_seen", s.atomic_ops);
